@@ -6,6 +6,7 @@ import numpy as np
 from hypothesis import strategies as st
 
 from vp import sut
+from vp.gens import weighted
 
 ID = "C16"
 LEVEL = "exploration"
@@ -187,7 +188,8 @@ def _reader_case(draw):
     """End to end, as decompress_destripe_cbin uses it: the full-scale voltage comes from Reader.range_volts of a generated
     recording whose raw int16 samples sit clearly (>= 2 counts) below / above 98 % of the converter's maximum integer."""
     from vp.gens import meta as gm
-    spec = draw(gm.st_spec(n_choices=(2, 3, 5, 8, 16, 40, 384), ns_range=(12, 60), patterns=("dense", "random")))
+    spec = draw(gm.st_spec(n_choices=(2, 3, 5, 8, 16, 40, 384), ns_range=(12, 60), patterns=("dense", "random"),
+                            allow_nosync=True))   # a saved-channel subset may leave the sync word out
     nchan = spec["n"]
     k0 = draw(st.integers(0, nchan - 1))
     nev = draw(st.integers(1, 5))
@@ -200,7 +202,7 @@ def _reader_case(draw):
 
 
 def strategy(tier):
-    return st.one_of(*([_case()] * 9 + [_reader_case()]))
+    return weighted((9, _case()), (1, _reader_case()))
 
 
 # ------------------------------------------------------------------------------------------------------------------
@@ -809,7 +811,8 @@ def _run_reader(case, ctx):
     counts = (np.abs(D[:, :nchan].astype(np.int64)) > thr).sum(axis=1)
     exp_flags = counts >= k0 + 1
     p = (k0 + 0.5) / nchan
-    ctx.label("reader", "reader_" + spec["gen"], "reader_" + spec["stream"], f"reader_maxint{maxint}")
+    ctx.label("reader", "reader_" + spec["gen"], "reader_" + spec["stream"], f"reader_maxint{maxint}",
+              "reader_sync_saved" if nsync else "reader_no_sync_channel")
     if np.any(counts == k0 + 1) or (k0 >= 1 and np.any(counts == k0)):
         ctx.nontrivial = True
     sg, vo = sut.spikeglx(), sut.voltage()
